@@ -948,6 +948,9 @@ where
     P: AsRef<Path>,
 {
     let file = log::open(utils::datafile_name(&path, fileid))?;
+    // A file that ends in its first, partially written entry yields nothing. It must still be
+    // known to the merge, otherwise its bytes are never reclaimed.
+    stats.entry(fileid).or_default();
     let mut datafile_iter = LogIterator::new(file)?;
     while let Some((datafile_index, datafile_entry)) = datafile_iter.next::<DataFileEntry>()? {
         match datafile_entry.value {
